@@ -54,7 +54,7 @@ var kinds = []Kind{
 	k("func() func()", "func() func()"), k("iter.Seq[*St]", "iter.Seq[*St]"), k("func() chan int", "func() chan int"), k("func() bool", "func() bool"),
 	// pointers
 	kc("*int", "*int"), k("*string", "*string"), kc("*[4]byte", "*[4]byte"), kc("*[0]int", "*[0]int"), k("*[4]int", "*[4]int"), k("*[8]byte", "*[8]byte"),
-	kc("*St", "*St"), kc("*Emb", "*Emb"), k("**int", "**int"), kc("*Gen[int]", "*Gen[int]"), k("NPInt", "NPInt"), k("NPArr4", "NPArr4"), kc("NPSt", "NPSt"),
+	kc("*St", "*St"), kc("*Emb", "*Emb"), k("**int", "**int"), kc("*Gen[int]", "*Gen[int]"), k("NPInt", "NPInt"), kc("NPArr4", "NPArr4"), kc("NPSt", "NPSt"),
 	k("*[]int", "*[]int"), k("*map[string]int", "*map[string]int"), k("*chan int", "*chan int"), k("*any", "*any"), k("*error", "*error"), k("*func()", "*func()"),
 	k("*NInt", "*NInt"), k("*Empty", "*Empty"), kc("*Rec", "*Rec"), kc("*NArr4", "*NArr4"), k("GPtr[int]", "GPtr[int]"), k("*[2][2]int", "*[2][2]int"),
 	k("*NSl", "*NSl"), k("*bool", "*bool"), k("*float64", "*float64"), k("**St", "**St"), k("*unsafe.Pointer", "*unsafe.Pointer"),
